@@ -45,6 +45,7 @@ def run(chk):
         "all six tests (= C11.R3, random_order=True rows); R4 data order preserved by mvrs_to_data (= C06.R4)."
     )
     chk.trust("set membership of hashable indices", "rules of C07, C09, C11, C06 as cited")
+    chk.borrow(c07.r4_state, {"C07.R4": "C10.R1"})  # (first: stands even if the structure below is not recognised)
     f = c07.sampling_facts(chk)
     fn, w = f["fn"], f["while"]
     where = W("CVR.consistent_sampling")
